@@ -9,9 +9,13 @@ fn main() {
             println!("{}", serde_json::json!({"hooks": trace::HAS_HOOKS}));
         }
         "bytes-fidelity" => bytesfid::main(&rest),
+        "c13-types" => extra::c13_types(&rest),
+        "c01-fronts" => extra::c01_fronts(&rest),
         "c10-get" => extra::c10_get(&rest),
         "c14-extra" => extra::c14_extra(&rest),
         "c15-life" => stress::c15(&rest),
+        "race-stress" => race::main(&rest),
+        "c07-stress" => stress::c07(&rest),
         "c08-stress" => stress::c08(&rest),
         "cache-replay" => replay::main(&rest),
         "rid-replay" => c18::replay(&rest),
